@@ -590,6 +590,73 @@ theorem appender_lenPrefixed {body : Enc → ERes Unit} (hb : Appender body) : A
             List.length_nil]
           omega
 
+theorem appender_lenPrefixedTry {body : Enc → ERes Unit} (hb : Appender body) :
+    Appender (Enc.lenPrefixedTry body) := by
+  intro base B P M e ha
+  unfold Enc.lenPrefixedTry
+  have hp := appender_place 2 ha
+  cases hpl : e.place 2 with
+  | panic s => trivial
+  | err k e1 => rw [hpl] at hp; exact hp
+  | ok start e1 =>
+    rw [hpl] at hp
+    obtain ⟨ha1, hst, hoff1⟩ := hp
+    simp only
+    have hb1 := hb base B P M e1 ha1
+    have hb2 := hb _ _ _ _ e1 (Above.self e1 ha1.stateOK.1 ha1.stateOK.2)
+    cases hbody : body e1 with
+    | panic s => trivial
+    | err k e2 => rw [hbody] at hb1; exact hb1
+    | ok u e2 =>
+      rw [hbody] at hb1 hb2
+      simp only at hb1 hb2 ⊢
+      have hge : start + 2 ≤ e2.offset := by have := hb2.base_le; omega
+      unfold Enc.lenSincePlace
+      rw [if_neg (by omega)]
+      simp only
+      have hin : start + 2 ≤ e2.buf.length := by rw [← hb1.app]; exact hge
+      by_cases hbig : e2.offset - start - 2 > 65535
+      · simp only [hbig, ↓reduceIte]; exact ⟨hb1, by intro c; simp⟩
+      simp only [hbig, ↓reduceIte]
+      cases hr : e2.placeReplace start 2 (fun x => x.emitU16 (e2.offset - start - 2)) with
+      | panic s => trivial
+      | err k e3 =>
+        -- a refused back-patch trips the length assertion (panic) — an `Err` cannot come out
+        exfalso
+        unfold Enc.placeReplace at hr
+        simp only at hr
+        unfold Enc.emitU16 at hr
+        rw [emitSlice_overwrite _ _ (by simp; omega)] at hr
+        simp only [List.length_cons, List.length_nil] at hr
+        by_cases hlt : start < e2.offset
+        · rw [if_neg (by omega)] at hr
+          by_cases hmax : e2.maxSize < start + (0 + 1 + 1)
+          · simp only [hmax, ↓reduceIte] at hr
+            rw [if_neg (by omega), if_pos (by omega)] at hr
+            simp at hr
+          · simp only [hmax, ↓reduceIte] at hr
+            rw [if_neg (by omega), if_neg (by omega)] at hr
+            simp at hr
+        · rw [if_pos hlt] at hr; simp at hr
+      | ok u3 e3 =>
+        have := placeReplace_spec e2 e3 start 2 _ (by simp) hin hr
+        subst this
+        simp only
+        have hbs : base ≤ start := by have := ha.base_le; omega
+        refine ⟨hb1.base_le, ?_, ?_, hb1.old, hb1.ptrs, hb1.lim, ?_⟩
+        · have := hb1.app
+          simp only [List.length_append, List.length_take, List.length_drop, List.length_cons,
+            List.length_nil]
+          omega
+        · simp only
+          rw [List.append_assoc, List.take_append_of_le_length (by simp; omega), List.take_take,
+            Nat.min_eq_left hbs]
+          exact hb1.low
+        · have := hb1.fits
+          simp only [List.length_append, List.length_take, List.length_drop, List.length_cons,
+            List.length_nil]
+          omega
+
 /-- **A single `Name::emit` respects the limit whether it succeeds or fails**: the buffer stays in
 the appending state, keeps its old bytes, and is no longer than `max(max_size, old length)`. -/
 theorem emitName_respects_max (e : Enc) (n : Name) (happ : e.offset = e.buf.length)
